@@ -20,11 +20,13 @@ type vstatus struct {
 func verif_C18_script() {
 	T := verifBound(2, 3)
 	nt := nondetInt(1, T)
-	cbMode := verifChoice(3) // 0 LMTPData with a callback, 1 Data(), 2 LMTPData(nil)
-	withCb := cbMode == 0
 	c, vc := verifClient("", nil)
 	c.lmtp = true
 	for t := 0; t < nt; t++ {
+		// chosen per transaction: a later transaction must not inherit the
+		// earlier one's callback
+		cbMode := verifChoice(3) // 0 LMTPData with a callback, 1 Data(), 2 LMTPData(nil)
+		withCb := cbMode == 0
 		nr := nondetInt(1, 2)
 		script := "250 2.0.0 ok\r\n"
 		var want []vstatus
